@@ -151,6 +151,8 @@ def alphabet_for(spec, tier):
         ops.append(("node_id", 9))
     if cls == "master":
         ops.append(("master-release", O("3")))
+    # a diagnostic call of the shared API in between (print_details with the pipe dump; output discarded): changes nothing
+    ops.append(("diag",))
     return ops
 
 
@@ -281,6 +283,11 @@ def do_op(state, op, seed=0):
         node.node_id = op[1]
     elif kind == "master-release":
         res = node.release_address(op[1])
+    elif kind == "diag":
+        import contextlib
+        import io
+        with contextlib.redirect_stdout(io.StringIO()):
+            node.print_details(True)
     else:
         raise HarnessError("unknown op %r" % (op,))
     return res
@@ -337,7 +344,7 @@ def canon(state):
 
 def check_state(state, op, hist, exc, rep, init_name, pid=PID):
     w, node, radio, ghost = state[:4]
-    if op[0] == "radio-attr":
+    if op[0] in ("radio-attr", "diag"):
         return []  # not a network call: nothing is claimed right after it
     bad = N.listening_violations(node, radio)
     if bad:
